@@ -50,6 +50,10 @@ where
         let bytes = application_message.into_bytes();
         let mut rumor: UnsignedEvent = UnsignedEvent::from_json(bytes)?;
 
+        // A rumor may carry a pre-set id: it must be the NIP-01 hash of its own fields,
+        // otherwise a member could store (or overwrite) a message under an arbitrary id.
+        rumor.verify_id()?;
+
         self.verify_rumor_author(&rumor.pubkey, sender_credential)?;
 
         let rumor_id: EventId = rumor.id();
